@@ -221,3 +221,116 @@ def run(F, rep, tier="quick"):
         else:
             rep.ok(rid, key, "%d tables fold to the prescribed result" % ok)
     rep.floor(rid, "hit-policy results folded to a definite answer", total, 100)
+
+
+# ====================================================================================================== R03.11: which rules match, what is collected
+PDT = "dmntk_model_evaluator::builders::decision_table::evaluate_parsed_decision_table"
+
+
+def evalr(v):
+    return ("evalr", v)
+
+
+def B(x):
+    return ("v", "Boolean", [("lit", x)]) if x is not None else ("v", "Null", [("v", "None", [])])
+
+
+def parsed_table(rules, priorities, defaults, components=("out",)):
+    """rules: [([entry truth values: True / False / None], [output symbols])]; priorities / defaults: per output clause a list of symbols or None"""
+    def exprlist(xs):
+        return ("v", "Some", [evalr(("v", "ExpressionList", [("array", [N(x) for x in xs])]))]) if xs is not None else ("v", "None", [])
+    return ("rec", {
+        "component_names": ("array", [name(c) for c in components]),
+        "output_values_evaluators": ("array", [exprlist(p) for p in priorities]),
+        "default_output_values_evaluators": ("array", [exprlist(d) for d in defaults]),
+        "rules": ("array", [("rec", {"input_entries_evaluators": ("array", [evalr(B(t)) for t in ins]), "output_entries_evaluators": ("array", [evalr(N(o)) for o in outs])}) for ins, outs in rules]),
+    })
+
+
+def fold_table(F, table):
+    box = {}
+
+    def hook(c, a, st):
+        ev = box["ev"]
+        c = c or ""
+        if c.startswith("local:") and isinstance(st.env.get(c[6:]), tuple) and st.env[c[6:]][0] == "evalr":
+            return st.env[c[6:]][1]
+        if c.endswith("Fn::call") or c.endswith("Fn<Args>>::call"):
+            if a and isinstance(a[0], tuple) and a[0][0] == "evalr":
+                return a[0][1]
+        if c in ("dmntk_feel::values::Values::as_vec",):
+            return a[0]
+        if c == "dmntk_feel::values::Values::new":
+            seq = ev.as_seq(a[0]) if a else None
+            return ("array", list(seq)) if seq is not None else None
+        if c == "dmntk_feel::values::Value::is_true" and a and a[0][0] == "v":
+            # (Value::is_true is `matches!(self, Value::Boolean(true))`; the crate that defines it need not be part of this check's fact base)
+            from hireval import mk_bool
+            return mk_bool(a[0][1] == "Boolean" and len(a[0][2]) == 1 and a[0][2][0] in (("lit", True), ("bool", True)))
+        return None
+    ev = Evaluator(F, call_hook=hook, ints=True, max_paths=400, inline={n for n in F.hir if n.startswith("dmntk_feel::values::Value::is_") or
+                                                                        (n.startswith("dmntk_model_evaluator::builders::decision_table::") and "{closure" not in n and n != PDT)})
+    ev.vecs = True
+    box["ev"] = ev
+    try:
+        outs = ev.run_fn(PDT, [sym("scope"), table])
+    except (TooManyPaths, ValueError, KeyError, TypeError, IndexError, RecursionError) as x:
+        return None, "%s: %s" % (type(x).__name__, str(x)[:80])
+    if len(outs) != 1 or outs[0][0]:
+        return None, "%d paths%s" % (len(outs), (": " + str(outs[0][0][0])[:70]) if outs and outs[0][0] else "")
+    return outs[0][1], ""
+
+
+def run_matching(F, rep, tier="quick"):
+    import itertools
+    rid = rep.rule("R03.11", "evaluate_parsed_decision_table, folded on parsed tables whose entry evaluators answer assigned truth values, marks a rule as matching exactly when every "
+                             "input entry is true, and collects the output entries, the output values and the default outputs in order")
+    if F.hir.get(PDT) is None:
+        rep.missing_anchor(rid, PDT)
+        return
+    h = F.hir[PDT]
+    where = "%s:%s" % (h["file"], h["line"])
+    truth = (True, False, None)
+    bad, unknown, ok = [], [], 0
+    tables = []
+    for k in (0, 1, 2, 3):
+        for ins in itertools.product(truth, repeat=k):
+            tables.append(([(list(ins), ["a"])], [["p", "q"]], [None]))
+    tables += [([([True, True], ["a", "x"]), ([True, False], ["b", "y"]), ([], ["c", "z"])], [["p"], None], [["d"], ["e"]]),
+               ([([None], ["a"]), ([True], ["b"])], [None], [None]),
+               ([([False, True], ["a"]), ([True, True], ["b"]), ([True, None], ["c"])], [["q", "p"]], [["d"]])]
+    for rules, prios, dflts in tables:
+        comps = ("out",) if len(rules[0][1]) == 1 else ("p", "q")
+        v, note = fold_table(F, parsed_table(rules, prios, dflts, comps))
+        label = "rules %s" % [("/".join({True: "T", False: "F", None: "N"}[t] for t in ins) or "-") + ">" + "/".join(outs) for ins, outs in rules]
+        if v is None or v[0] != "rec":
+            unknown.append("%s: %s" % (label, note or str(v)[:60]))
+            continue
+        try:
+            got_rules = [(r[1]["matches"], [dec(o) for o in r[1]["output_entry_values"][1]]) for r in v[1]["evaluated_rules"][1]]
+            got_prio = [dec(o) for o in v[1]["output_values"][1]]
+            got_dflt = [dec(o) for o in v[1]["default_output_values"][1]]
+            got_names = [c[1] for c in v[1]["component_names"][1]]
+        except (KeyError, IndexError, TypeError):
+            unknown.append("%s: result not concrete" % label)
+            continue
+        want_rules = [(("bool", all(t is True for t in ins)), list(outs)) for ins, outs in rules]
+        want_prio = [x for p in prios if p is not None for x in p]
+        want_dflt = [x for d in dflts if d is not None for x in d]
+        if has_unknown(got_prio) or has_unknown(got_dflt) or any(has_unknown(o) for _, o in got_rules):
+            unknown.append("%s: part of the evaluated table does not fold" % label)
+        elif any(m[0] not in ("bool", "lit") or not isinstance(m[1], bool) for m, _ in got_rules):
+            unknown.append("%s: the match flag does not fold (%s)" % (label, str(got_rules[0][0])[:60]))
+        elif [(("bool", m[1]), o) for m, o in got_rules] != want_rules:
+            bad.append("%s: matching / outputs %s, prescribed %s" % (label, [(m[1], o) for m, o in got_rules], [(m[1], o) for m, o in want_rules]))
+        elif got_prio != want_prio or got_dflt != want_dflt or got_names != list(comps):
+            bad.append("%s: output values %s / defaults %s / names %s, prescribed %s / %s / %s" % (label, got_prio, got_dflt, got_names, want_prio, want_dflt, list(comps)))
+        else:
+            ok += 1
+    if bad:
+        rep.violation(rid, "matching:evaluate_parsed_decision_table", "the evaluated table is not what the parsed table and the entry values prescribe: %s" % "; ".join(bad[:3]), where)
+    elif unknown:
+        rep.undecided(rid, "matching:evaluate_parsed_decision_table", "%d of %d tables fold, %d do not: %s" % (ok, ok + len(unknown), len(unknown), "; ".join(unknown[:2])))
+    else:
+        rep.ok(rid, "matching:evaluate_parsed_decision_table", "%d tables: a rule matches exactly when all its input entries are true (null and false do not match, no entries match)" % ok)
+    rep.floor(rid, "parsed tables folded", ok + len(bad), 30)
